@@ -183,7 +183,7 @@ def payload_is(p, *suffix):
     return norm_path(p.path) == ["+", "0"] + list(suffix)
 
 
-def sources(fn, x, transparent=(), stop=(), via=None, limit=200):
+def sources(fn, x, transparent=(), stop=(), via=None, limit=200, avoid=()):
     """Every value an operand / place may hold, as a list of Paths.
 
     Like access_path, but a local with several whole-local definitions (a `let x = match ..` result, an
@@ -191,7 +191,8 @@ def sources(fn, x, transparent=(), stop=(), via=None, limit=200):
     of its definitions instead of stopping there.  Projecting the success payload out of `Some(v)` / `Ok(v)`
     built in the function yields v; out of `None` / `Err(..)` it yields nothing (that definition cannot be
     the one read).  Locals in `stop` (loop-carried cursors) are never expanded.  `via`: only definitions
-    that can reach the use through block `via` are followed (those reachable from it, or from which it is reachable).
+    that can reach the use through block `via` are followed (those reachable from it, or from which it is reachable;
+    `avoid`: blocks such paths may not cross, e.g. the head of the enclosing loop, so that "reachable" means "within this iteration").
     Each Path has .hops = [(local, def_bb)] of the multi-definition locals it went through."""
     rxs = [re.compile(p) for p in (list(transparent) or [])]
     if "k" in x:
@@ -205,7 +206,7 @@ def sources(fn, x, transparent=(), stop=(), via=None, limit=200):
     defs = fn.defs()
     out = []
     seen = set()
-    reach_via = fn.reachable(via) if via is not None else None
+    reach_via = fn.reachable(via, avoid=avoid) if via is not None else None
     work = [(pl["l"], list(pl["p"]), [], [])]
     n = 0
     while work:
@@ -231,7 +232,7 @@ def sources(fn, x, transparent=(), stop=(), via=None, limit=200):
             else:
                 cand = ds
                 if len(ds) > 1 and via is not None:
-                    cand = [d for d in ds if d[0] in reach_via or via in fn.reachable(d[0])]
+                    cand = [d for d in ds if d[0] in reach_via or via in fn.reachable(d[0], avoid=avoid)]
                 multi = len(ds) > 1
                 for bb, kind, node in cand:
                     h2 = hops + [(l, bb)] if multi else hops
@@ -335,6 +336,22 @@ def version_param(fn):
     return None
 
 
+def outermost_fn(ds, f):
+    """The named function a closure (possibly of a helper that was inlined, or a synthetic fn-item closure) is written in."""
+    cur = f
+    for _ in range(8):
+        if cur.raw["kind"] != "Closure":
+            return cur
+        par = ds.F.get(cur.raw.get("parent"))
+        if par is None:
+            hosts = [g for g in ds.F.values() if cur.raw.get("parent") in g.raw.get("inlined", [])]
+            if len(hosts) != 1:
+                return cur
+            par = hosts[0]
+        cur = par
+    return cur
+
+
 def closure_site(facts, clo):
     """(parent Fn, bb, aggregate statement) building the closure / coroutine `clo`."""
     par = facts.F.get(clo.raw.get("parent"))
@@ -400,13 +417,46 @@ def edge_is_rejecting(fn, src, dst, extra_avoid_edges=()):
     return not any(b in reach for b in ok_return_blocks(fn))
 
 
+_STD_VARIANTS = {"std::result::Result": ["Ok", "Err"], "std::option::Option": ["None", "Some"], "std::ops::ControlFlow": ["Continue", "Break"]}
+
+
+def _variant_index(fn, adt, name):
+    a = fn.facts.adts.get(adt)
+    names = [v["name"] for v in a["variants"]] if a else _STD_VARIANTS.get(adt, [])
+    return names.index(name) if name in names else None
+
+
 def const_reach(fn, start=0, avoid=(), avoid_edges=(), max_states=20000):
-    """Blocks reachable from `start` when boolean constants are propagated: a flag assigned `true` / `false` in the arms of a
-    match (what `matches!(..)` lowers to), copied, negated and then branched on only takes the edge its value selects.
-    Plain reachability otherwise (unknown values take every edge).  `avoid` blocks are not entered, `avoid_edges` not taken."""
+    """Blocks reachable from `start` when locally evident constants are propagated along each path:
+
+    * boolean flags assigned `true` / `false` (what `matches!(..)` lowers to), copied, negated and then branched on;
+    * the variant of a Result / Option / ControlFlow value that was just built (`Err(..)`, `None`, the result of
+      FromResidual::from_residual, Try::branch of such a value) - so that the error returned by a `?` inside an inlined helper
+      is known to take the Break edge of the caller's `helper(..)?`.
+
+    Unknown values take every edge (plain reachability).  Only whole locals that are never borrowed mutably are tracked.
+    `avoid` blocks are not entered, `avoid_edges` not taken."""
     fn.succ(0)
     avoid = set(avoid)
     avoid_edges = set(avoid_edges)
+    cache = getattr(fn, "_c01_mut_borrowed", None)
+    if cache is None:
+        cache = set()
+        for _bb, _i, st in fn.stmts():
+            rv = st["rv"]
+            if rv["rv"] in ("ref", "rawptr") and rv.get("mut"):
+                cache.add(rv["pl"]["l"])
+        fn._c01_mut_borrowed = cache
+    untracked = cache
+
+    def val_of(op, vals):
+        if op.get("k") == "const":
+            if op.get("ty") == "bool" and op.get("val") and "int" in op["val"]:
+                return ("b", bool(op["val"]["int"]))
+            return None
+        if op.get("k") in ("copy", "move") and not op["pl"]["p"]:
+            return vals.get(op["pl"]["l"])
+        return None
     seen = set()
     out = set()
     work = [(start, ())]
@@ -423,40 +473,72 @@ def const_reach(fn, start=0, avoid=(), avoid_edges=(), max_states=20000):
         for st in blk["st"]:
             if st["s"] != "assign":
                 continue
-            if st["pl"]["p"]:
-                continue
             l = st["pl"]["l"]
+            if st["pl"]["p"]:
+                if "*" not in st["pl"]["p"]:
+                    vals.pop(l, None)       # a field of the local is overwritten
+                continue
             rv = st["rv"]
             new = None
             if rv["rv"] == "use":
-                op = rv["op"]
-                if op.get("k") == "const" and op.get("ty") == "bool" and op.get("val") and "int" in op["val"]:
-                    new = bool(op["val"]["int"])
-                elif op.get("k") in ("copy", "move") and not op["pl"]["p"] and op["pl"]["l"] in vals:
-                    new = vals[op["pl"]["l"]]
+                new = val_of(rv["op"], vals)
             elif rv["rv"] == "unop" and rv["op"] == "Not":
-                op = rv["a"]
-                if op.get("k") in ("copy", "move") and not op["pl"]["p"] and op["pl"]["l"] in vals:
-                    new = not vals[op["pl"]["l"]]
-            if new is None:
+                v = val_of(rv["a"], vals)
+                if v is not None and v[0] == "b":
+                    new = ("b", not v[1])
+            elif rv["rv"] == "agg" and rv.get("agg") == "adt" and rv.get("adt") in _STD_VARIANTS and rv.get("variant"):
+                idx = _variant_index(fn, rv["adt"], rv["variant"])
+                if idx is not None:
+                    new = ("v", rv["adt"], idx)
+            elif rv["rv"] == "discr" and not rv["pl"]["p"]:
+                v = vals.get(rv["pl"]["l"])
+                if v is not None and v[0] == "v":
+                    new = ("i", v[2])
+            if new is None or l in untracked:
                 vals.pop(l, None)
             else:
                 vals[l] = new
         t = blk["term"]
         if t["t"] == "call" and not t["dest"]["p"]:
+            d = t["dest"]["l"]
+            vals.pop(d, None)
+            callee = t.get("callee") or ""
+            new = None
+            if callee.endswith("ops::FromResidual::from_residual"):
+                ty = fn.local_ty(d)
+                if ty.startswith("std::result::Result<"):
+                    new = ("v", "std::result::Result", 1)
+                elif ty.startswith("std::option::Option<"):
+                    new = ("v", "std::option::Option", 0)
+            elif callee.endswith("ops::Try::branch") and t["args"]:
+                v = val_of(t["args"][0], vals)
+                if v is not None and v[0] == "v" and v[1] in ("std::result::Result", "std::option::Option"):
+                    success = v[2] == (0 if v[1].endswith("Result") else 1)
+                    new = ("v", "std::ops::ControlFlow", 0 if success else 1)
+            if new is not None and d not in untracked:
+                vals[d] = new
+        elif t["t"] == "call":
             vals.pop(t["dest"]["l"], None)
         succs = list(fn.succ(bb))
         if t["t"] == "switch" and len(succs) > 1:
             d = t["discr"]
             dl = d["pl"]["l"] if d.get("k") in ("copy", "move") and not d["pl"]["p"] else None
-            if dl is not None and dl in vals and fn.local_ty(dl) == "bool":
+            v = vals.get(dl) if dl is not None else None
+            only = None
+            if v is not None and v[0] == "b" and fn.local_ty(dl) == "bool":
                 false_t = None
                 for val, tgt in t["targets"]:
                     if val == 0:
                         false_t = tgt
                 if false_t is not None:
-                    only = t["otherwise"] if vals[dl] else false_t
-                    succs = [x for x in succs if x == only]
+                    only = t["otherwise"] if v[1] else false_t
+            elif v is not None and v[0] == "i":
+                only = t["otherwise"]
+                for val, tgt in t["targets"]:
+                    if val == v[1]:
+                        only = tgt
+            if only is not None:
+                succs = [x for x in succs if x == only]
         vt = tuple(sorted(vals.items()))
         for sx in succs:
             if (bb, sx) in avoid_edges:
